@@ -1,0 +1,31 @@
+// Copyright 2025 Democratized Data Foundation
+//
+// Use of this software is governed by the Business Source License
+// included in the file licenses/BSL.txt.
+//
+// As of the Change Date specified in that file, in accordance with
+// the Business Source License, use of this software will be governed
+// by the Apache License, Version 2.0, included in the file
+// licenses/APL.txt.
+
+//go:build verif
+
+package db
+
+import (
+	"context"
+
+	"github.com/sourcenetwork/defradb/event"
+)
+
+// VerifExecuteMerge runs a merge synchronously and returns the error that
+// handleMessages would only log. It exists only in builds tagged `verif` and is
+// used by the deterministic simulation harness, which needs every delivery to be
+// one atomic, observable step.
+func (db *DB) VerifExecuteMerge(ctx context.Context, evt event.Merge) error {
+	col, err := getCollectionFromCollectionID(ctx, db, evt.CollectionID)
+	if err != nil {
+		return err
+	}
+	return db.executeMerge(ctx, col, evt)
+}
